@@ -47,6 +47,10 @@
 namespace bloc
 {
 
+#ifdef BLOC_VERIF
+VerifHooks verif_hooks = { nullptr, nullptr };
+#endif
+
 Context::Context()
 : _root(this)
 , _ts_init(std::chrono::system_clock::now())
